@@ -30,15 +30,17 @@ def specs_for(tier, seed):
     rng = random.Random(seed)
     specs = []
 
-    def add(name, ids, ca=None, meta=None, accounts=None, attempts=1):
+    def add(name, ids, ca=None, meta=None, accounts=None, attempts=1, hooks=None, hooks_fail=False):
         sp = dict(tag="C05/s%04d" % len(specs), certs=[simple_cert("c%d" % len(specs), ids=ids)], attempts=attempts,
                   endpoints={"A": {"ca": ca or {}}}, meta=dict(meta or {}, set=name, ca=ca or {}))
         if accounts:
             sp["accounts"] = accounts
+        if hooks:
+            sp["hooks"] = hooks
         sp = flowcheck.prepare(sp)
         # a conforming CA that offers the configured challenge types and leaves every authorization pending or valid: issuance must go through
         c = ca or {}
-        solvable = (all(v == "valid" for v in (c.get("authz_status") or {}).values()) and c.get("wildcard_field", True)
+        solvable = (not hooks_fail and all(v == "valid" for v in (c.get("authz_status") or {}).values()) and c.get("wildcard_field", True)
                     and ("offered" not in c or all(i["challenge"] in c["offered"] for i in ids)))
         sp["meta"]["healthy"] = {cid: bool(solvable) for cid in sp["meta"]["flow"]}
         specs.append(sp)
@@ -69,6 +71,20 @@ def specs_for(tier, seed):
             if tier == "thorough" or rng.random() < 0.5:
                 add(name, ids, ca={"offered": offered}, meta={"family": "CA offers a subset", "offered": offered})
         add(name, ids, ca={"wildcard_field": False}, meta={"family": "CA omits the wildcard flag"})
+    # a challenge hook that ends badly (exit code, killed by a signal), with and without allow_failure: readiness may only be
+    # posted when every hook of the challenge succeeded or was allowed to fail
+    from daemon import standard_hooks
+    for t in ("http-01", "dns-01", "tls-alpn-01"):
+        for code, extra in (("3", []), ("0", ["--signal"])):
+            for allow in (False, True):
+                hooks = []
+                for h in standard_hooks():
+                    h = dict(h)
+                    if h["name"] == "chall-" + t:
+                        h = dict(h, args=["--hook", h["name"], "--exit-seq", code] + extra + h["args"][4:], allow_failure=allow)
+                    hooks.append(h)
+                add("three names three types", id_sets()["three names three types"], hooks=hooks, hooks_fail=not allow,
+                    meta={"family": "challenge hook ends badly", "type": t, "exit": code, "signal": bool(extra), "allow_failure": allow})
     # all account key types (the thumbprint enters every proof)
     for kt in KEY_TYPES:
         for name in (["three names three types", "ipv4+ipv6", "name+wildcard"] if tier == "thorough" else ["three names three types"]):
@@ -108,7 +124,7 @@ def run(ctx):
            "model_fidelity": {"all_labels_clean": not fb, "bad": [({k: v for k, v in results[i]["meta"].items() if k not in ("flow", "hook_types")}, l) for i, l, _ in fb[:6]]},
            "exhaustive": False,
            "rule": "identifier sets in which a name and its wildcard, several names, and IPv4/IPv6 addresses use different challenge types; every (quick: sampled) "
-                   "order of authorizations and challenges; authorizations offered in every status, any subset already valid (the rest must still be solved: a solvable issuance must succeed); CAs offering subsets of challenge types; all 7 account "
+                   "order of authorizations and challenges; authorizations offered in every status, any subset already valid (the rest must still be solved: a solvable issuance must succeed); CAs offering subsets of challenge types; challenge hooks that exit non-zero or are killed by a signal, with and without allow_failure; all 7 account "
                    "key types. Expected proofs are computed by the CA from the registered JWK (RFC 7638 thumbprint built by the vcrypto oracle)."}
     return {"coverage": cov, "assumptions": [
         "a conforming CA marks wildcard authorizations with wildcard=true (RFC 8555 7.1.4); runs against a CA that omits the flag are recorded in model_fidelity only",
